@@ -290,3 +290,8 @@ impl ValCheck for GaloisKeys {
     }
 
 }
+
+// Verification hook (add-only): compiled only under `cargo kani` or `--cfg heathcliff_verif`.
+#[cfg(any(kani, heathcliff_verif))]
+#[path = "/verif/incrate/valcheck_v.rs"]
+pub(crate) mod verif_v;
